@@ -15,9 +15,11 @@ from contextlib import contextmanager
 
 
 class SimLoop(asyncio.SelectorEventLoop):
-    def __init__(self, start: float = 1000.0, quantum: float = 0.0):
+    def __init__(self, start: float = 1000.0, quantum: float = 0.0, tick: float = 0.0):
         super().__init__(selectors.DefaultSelector())
         self._vt = start
+        self._tick = tick      # opt-in: virtual time consumed by one loop iteration (lets a task that spins
+                               # on sleep(0) not starve the clock); 0 = exact virtual time
         self.iterations = 0
         self.max_iterations = 2_000_000
         self.exceptions: list[dict] = []
@@ -48,6 +50,8 @@ class SimLoop(asyncio.SelectorEventLoop):
             when = self._scheduled[0]._when
             if when > self._vt:
                 self._vt = when
+        elif self._tick:
+            self._vt += self._tick
         super()._run_once()
 
     def run_in_executor(self, executor, func, *args):
@@ -101,10 +105,11 @@ def patched_clock(loop: SimLoop):
         _time.time, _time.monotonic = real_time, real_mono
 
 
-def run(coro_fn, *args, start: float = 1000.0, patch_clock: bool = True, wall_timeout: float = 60.0):
+def run(coro_fn, *args, start: float = 1000.0, patch_clock: bool = True, wall_timeout: float = 60.0,
+        tick: float = 0.0):
     """Run `coro_fn(loop, *args)` to completion on a fresh SimLoop; returns (result, loop)."""
     import signal
-    loop = SimLoop(start=start)
+    loop = SimLoop(start=start, tick=tick)
     asyncio.set_event_loop(loop)
 
     def on_alarm(signum, frame):
